@@ -863,3 +863,10 @@ M('c03e-buffer-cleared-instead-of-cut-back', 'C03', 'break', RS,
 M('c03a-d5-response-folding-peek-ignores-no-byte', 'C03', 'break', RS,
   '                if (connp->out_next_byte != -1 && htp_is_folding_char(connp->out_next_byte) == 0) {',
   '                if (htp_is_folding_char(connp->out_next_byte) == 0) {', 'C03.a')
+
+# ---------------- C01.o strncpy termination (D36)
+M('c01o-d36-buffer-not-terminated', 'C01', 'break', 'htp/htp_multipart.c',
+  "                        buf[254] = '\\0';\n", '', 'C01.o')
+M('c01o-zero-filled-first-keep', 'C01', 'keep', 'htp/htp_multipart.c',
+  "                        strncpy(buf, part->parser->extract_dir, 254);\n                        buf[254] = '\\0';\n",
+  "                        memset(buf, 0, sizeof(buf));\n                        strncpy(buf, part->parser->extract_dir, 254);\n")
